@@ -24,7 +24,7 @@ import (
 func init() {
 	register(&Rule{
 		ID:    "native/retrep",
-		Text:  "for every native method whose header return type is built from named classes, nilable and union types, every non-error return of the registered closure (followed through called helpers, two levels) whose value is a constructor with a class fixed by its Go type returns a class that is, includes or inherits from one the header names",
+		Text:  "for every native method whose header return type is built from named classes, nilable and union types, every non-error return of the registered closure (followed through called helpers, two levels) whose value is a constructor with a class fixed by its Go type returns a class that is, includes or inherits from one the header names; and a native method whose header return type is a bare type parameter of its own class or mixin (upper bound Any) has no return whose value is such a fixed-class constructor",
 		Floor: 300,
 		Run:   runNativeRetRep,
 	})
@@ -364,7 +364,59 @@ func runNativeRetRep(c *Ctx) {
 	}
 	sort.SliceStable(ms, func(i, j int) bool { return ms[i].ID() < ms[j].ID() })
 	seen := map[string]bool{}
-	decided, undecidedType := 0, 0
+	decided, undecidedType, typeParamRets := 0, 0, 0
+	// type parameters of classes and mixins: `typeParam = NewTypeParameter(
+	// ToSymbol(X), namespace, lower, Any{}, ...)`; a name counts only when
+	// every declaration of a parameter with that name has upper bound Any
+	tpAny := map[string]bool{}
+	for _, f := range c.Pkg("types").Syntax {
+		ast.Inspect(f, func(n ast.Node) bool {
+			call, ok := n.(*ast.CallExpr)
+			if !ok || len(call.Args) < 4 {
+				return true
+			}
+			if fn := Callee(hinfo, call); fn == nil || fn.Name() != "NewTypeParameter" {
+				return true
+			}
+			name, ok := symArg(hinfo, call.Args[0])
+			if !ok {
+				return true
+			}
+			// parameters of methods live in a namespace made on the spot
+			if _, classLevel := ast.Unparen(call.Args[1]).(*ast.Ident); !classLevel {
+				return true
+			}
+			_, isAny := ast.Unparen(call.Args[3]).(*ast.CompositeLit)
+			isAny = isAny && NamedOf(hinfo.TypeOf(call.Args[3])) == "types.Any"
+			if prev, seen := tpAny[name]; seen {
+				tpAny[name] = prev && isAny
+			} else {
+				tpAny[name] = isAny
+			}
+			return true
+		})
+	}
+	bareTypeParam := func(m *hdrMethod) (string, bool) {
+		call, ok := ast.Unparen(m.Ret).(*ast.CallExpr)
+		if !ok || len(call.Args) < 1 {
+			return "", false
+		}
+		if fn := Callee(hinfo, call); fn == nil || fn.Name() != "NameToType" {
+			return "", false
+		}
+		s, ok := strConst(hinfo, call.Args[0])
+		if !ok || !strings.HasPrefix(s, m.NS+"::") {
+			return "", false
+		}
+		short := strings.TrimPrefix(s, m.NS+"::")
+		if _, declared := h.Kind[s]; declared || strings.Contains(short, "::") || !tpAny[short] {
+			return "", false
+		}
+		if k := h.Kind[m.NS]; k != "class" && k != "mixin" {
+			return "", false
+		}
+		return s, true
+	}
 	for _, m := range ms {
 		if !m.Native || m.Abstract || seen[m.ID()] {
 			continue
@@ -377,6 +429,26 @@ func runNativeRetRep(c *Ctx) {
 		self := ""
 		if !m.Singleton && (h.Kind[m.NS] == "class") {
 			self = m.NS
+		}
+		if tp, isTP := bareTypeParam(m); isTP {
+			// parametricity: the method has to be right for every type the
+			// parameter is instantiated with, so no value whose class is
+			// fixed by its Go type can be an instance of it
+			var sites []retSite
+			collect(nd.Pkg.Info, nd.Func.Body, 2, "", &sites)
+			key := "typeparam/" + m.ID()
+			if len(sites) > 0 {
+				s0 := sites[0]
+				via := ""
+				if s0.via != "" {
+					via = " (through " + s0.via + ")"
+				}
+				c.Bad(key, s0.pos.Pos(), "the header declares that %s returns the bare type parameter %s (upper bound Any), but the native registered at %s returns a value that is always of class %s%s: for every instantiation of %s other than that class the caller receives a value of the wrong class, and the checker and the compiler trust the header", m.ID(), tp, c.Pos(nd.Call.Pos()), strings.Join(s0.classes, " | "), via, tp)
+			} else {
+				c.OK(key, nd.Call.Pos(), "returns type parameter %s; no return value with a class fixed by its Go type", tp)
+			}
+			typeParamRets++
+			continue
 		}
 		acc, ok := accepted(m.Ret, self)
 		if ok {
@@ -424,5 +496,9 @@ func runNativeRetRep(c *Ctx) {
 	}
 	c.Stats["native_methods_with_an_undecidable_header_return_type"] = undecidedType
 	c.Stats["native_methods_decided"] = decided
+	c.Stats["native_methods_returning_a_bare_type_parameter"] = typeParamRets
+	if typeParamRets < 5 {
+		c.Bad("typeparam/floor", c.Pkg("types").Syntax[0].Pos(), "only %d native methods with a bare type parameter as header return type were recognised (at least 5 expected): the recognition of type parameters in types/headers.go no longer matches", typeParamRets)
+	}
 	_ = fmt.Sprint
 }
